@@ -18,7 +18,8 @@ states of calmjs.parse.lexers.es5 (`INITIAL`, exclusive `regex`).  No Mathlib, n
 * A rule name for which the model has neither a matcher nor a spelling is the explicit outcome
   `modelGap` (the model does not cover the code any more), never skipped.
 * Rule functions: `t_STRING`, `t_GETPROP`, `t_SETPROP` return the token unchanged; `t_ID`
-  replaces the type by `keywords_dict.get(value, 'ID')`.
+  replaces the type by `keywords_dict.get(value, 'ID')`, and back by 'ID' when the lexer's last significant
+  token is a PERIOD (`ruleFn`).
 * All rules of these states produce tokens (no ignored-token rules, no literals, no `t_eof`);
   the error functions (`t_error`, `t_regex_error`) always raise, they live in Model.Lexer.
 -/
@@ -80,13 +81,25 @@ def firstMatch : List String → List Char → RuleResult
       | some n => .matched r n
       | none => firstMatch rs rest
 
-/-- the token type after the rule function ran (`t_ID` looks the lexeme up in `keywords_dict`) -/
+/-- the first statement of `t_ID`: `token.type = self.keywords_dict.get(token.value, 'ID')`; every other rule
+    (function or string rule) leaves the rule name as the type -/
 def ruleType (rule : String) (value : List Char) : String :=
   if rule = "ID" then
     match lookup LexData.keywords (String.ofList value) with
     | some kw => kw
     | none => "ID"
   else rule
+
+/-- the token type after the rule function ran.  ply calls a function rule as a bound method of the calmjs Lexer
+    object, and `t_ID` reads that object: after the dictionary look-up,
+
+        if (token.type != 'ID' and self.cur_token_real is not None and self.cur_token_real.type == 'PERIOD'):
+            token.type = 'ID'      # an IdentifierName after `.` is a property name, never a keyword
+
+    `afterPeriod` is the value of `self.cur_token_real is not None and self.cur_token_real.type == 'PERIOD'` at
+    the time of the call (Model.Lexer.afterPeriod). -/
+def ruleFn (afterPeriod : Bool) (rule : String) (value : List Char) : String :=
+  if rule = "ID" ∧ ruleType rule value ≠ "ID" ∧ afterPeriod = true then "ID" else ruleType rule value
 
 inductive PlyOut where
   /-- `return None`; `self.lexpos = lexpos + 1` -/
@@ -101,8 +114,9 @@ inductive PlyOut where
 
 def isIgnored (s : LexerState) (c : Char) : Bool := (ignoreOf s).contains c
 
-/-- one call of `lexer.token()` in state `s` with `self.lexpos = lexpos` -/
-def plyToken (s : LexerState) (text : List Char) (lexpos : Nat) : PlyOut :=
+/-- one call of `lexer.token()` in state `s` with `self.lexpos = lexpos`; `afterPeriod`: what the rule function
+    `t_ID` reads from the Lexer object (see `ruleFn`) -/
+def plyToken (s : LexerState) (text : List Char) (lexpos : Nat) (afterPeriod : Bool) : PlyOut :=
   let rest := text.drop lexpos
   let k := spanLen (isIgnored s) rest
   let start := lexpos + k
@@ -110,7 +124,7 @@ def plyToken (s : LexerState) (text : List Char) (lexpos : Nat) : PlyOut :=
   | [] => .eof (start + 1)
   | c :: cs =>
     match firstMatch (rulesOf s) (c :: cs) with
-    | .matched r n => .tok (ruleType r ((c :: cs).take n)) start n
+    | .matched r n => .tok (ruleFn afterPeriod r ((c :: cs).take n)) start n
     | .noMatch => .error start
     | .unknownRule r => .modelGap r
 
